@@ -51,6 +51,16 @@ def body(case):
 
     try:
         base = build.build_path(path)
+        if not conc and len(parts) >= 2 and len(repr(parts)) % 2:
+            # the same (non-concrete) path put together with the `/` operator: path / part, or path / path
+            k = 1 + len(repr(parts)) % (len(parts) - 1)
+            d_ = build.ns().d
+            left = d_.DataPath(*[build.build_part(x) for x in parts[:k]])
+            if len(parts) - k == 1 and isinstance(parts[k], Part):
+                base = left / build.build_part(parts[k])
+            else:
+                base = left / d_.DataPath(*[build.build_part(x) for x in parts[k:]])
+            out.label("joined-with-slash")
     except Exception as e:
         out.exc("build-path", e)
         return out
